@@ -33,7 +33,9 @@ VARIABLES pi,      \* program index (oracle mode)
           phase    \* "script" | "drain" | "idle" | "done"
 vars == <<pi, ps, lt, plat, hs, grp, jobq, log, nops, phase>>
 
-NewRec == [st |-> "pend", res |-> "u", fr |-> <<>>, rr |-> <<>>, handled |-> FALSE]
+\* cls: the constructor, "P" = %Promise%, "S" = a subclass (class Sub extends Promise {}); a derived promise has the class of the
+\* promise then() / finally() was called on (SpeciesConstructor), PromiseResolve(C, x) returns x itself only if x.constructor is C
+NewRec(c) == [st |-> "pend", res |-> "u", fr |-> <<>>, rr |-> <<>>, handled |-> FALSE, cls |-> c]
 IsPRef(x) == \E k \in 1..NP : x = "P" \o ToString(k)
 PRef(x) == CHOOSE k \in 1..NP : x = "P" \o ToString(k)
 IsRes(b) == \E k \in 1..NP : b = "res" \o ToString(k)
@@ -75,7 +77,8 @@ PerformThen(S, p, fR, rR) ==
   IN [S1 EXCEPT !.ps[p].handled = TRUE]
 
 \* a new pending promise with its own pair of resolving functions; returns <<S', id, latch>>
-Alloc(S) == LET S1 == [S EXCEPT !.ps = Append(@, NewRec), !.lt = Append(@, FALSE)] IN <<S1, Len(S1.ps), Len(S1.lt)>>
+AllocC(S, c) == LET S1 == [S EXCEPT !.ps = Append(@, NewRec(c)), !.lt = Append(@, FALSE)] IN <<S1, Len(S1.ps), Len(S1.lt)>>
+Alloc(S) == AllocC(S, "P")
 
 \* ---------------------------------------------------------------------------------------------------------------
 \* handler kinds (hs[h].kind):
@@ -129,8 +132,8 @@ Call(S, h, a) ==
 Commit(S) == ps' = S.ps /\ lt' = S.lt /\ jobq' = S.jobq /\ log' = S.log /\ grp' = S.grp
 
 \* op = [op |-> "new"]: new Promise(executor) exposing its resolving functions to the script
-OpNew ==
-  LET a == Alloc(S0) IN Commit(a[1]) /\ plat' = Append(plat, a[3]) /\ UNCHANGED hs
+OpNew(c) ==
+  LET a == AllocC(S0, c) IN Commit(a[1]) /\ plat' = Append(plat, a[3]) /\ UNCHANGED hs
 
 \* resolve(p, x) / reject(p, x) through the exposed functions (also the Go-side NewPromise resolvers)
 OpResolve(p, x) == Commit(ResolveFn(S0, p, plat[p], IF x = "self" THEN "P" \o ToString(p) ELSE x)) /\ UNCHANGED <<plat, hs>>
@@ -138,7 +141,7 @@ OpReject(p, x) == Commit(RejectFn(S0, p, plat[p], x)) /\ UNCHANGED <<plat, hs>>
 
 \* p.then(hf, hr): behaviours "none" = argument absent
 OpThen(p, bf, br) ==
-  LET a == Alloc(S0)
+  LET a == AllocC(S0, ps[p].cls)
       q == a[2]
       nh == Len(hs)
       hF == IF bf = "none" THEN 0 ELSE nh + 1
@@ -151,13 +154,13 @@ OpThen(p, bf, br) ==
 
 \* p.finally(h): then(thenFinally, catchFinally)
 OpFinally(p, b) ==
-  LET a == Alloc(S0)
+  LET a == AllocC(S0, ps[p].cls)
       q == a[2]
       nh == Len(hs)
       fR == [cap |-> q, lat |-> a[3], ty |-> "f", h |-> nh + 1]
       rR == [cap |-> q, lat |-> a[3], ty |-> "r", h |-> nh + 2]
   IN /\ Commit(PerformThen(a[1], p, fR, rR))
-     /\ hs' = hs \o <<[kind |-> "finF", beh |-> b], [kind |-> "finR", beh |-> b]>>
+     /\ hs' = hs \o <<[kind |-> "finF", beh |-> b, c |-> ps[p].cls], [kind |-> "finR", beh |-> b, c |-> ps[p].cls]>>
      /\ plat' = Append(plat, 0)
 
 \* Promise.all / allSettled / any / race over the promises xs (a sequence of promise ids)
@@ -172,7 +175,10 @@ OpCombinator(kind, xs) ==
       RECURSIVE Each(_, _, _)
       Each(S, H, i) ==
         IF i > n THEN <<S, H>>
-        ELSE LET d == Alloc(S)
+        ELSE LET \* nextPromise = %Promise%.resolve(xs[i]): the element itself, or a new promise resolved with it (a thenable job)
+                 w == IF S.ps[xs[i]].cls = "P" THEN <<S, xs[i]>>
+                      ELSE LET a0 == Alloc(S) IN <<ResolveFn(a0[1], a0[2], a0[3], "P" \o ToString(xs[i])), a0[2]>>
+                 d == Alloc(w[1])
                  hF == Len(H) + 1
                  hR == Len(H) + 2
                  pair == CASE kind = "all" -> <<[kind |-> "allElem", g |-> g, i |-> i], [kind |-> "rejectFn", p |-> q, l |-> lq]>>
@@ -181,7 +187,7 @@ OpCombinator(kind, xs) ==
                            [] kind = "race" -> <<[kind |-> "resolveFn", p |-> q, l |-> lq], [kind |-> "rejectFn", p |-> q, l |-> lq]>>
                  fR == [cap |-> d[2], lat |-> d[3], ty |-> "f", h |-> hF]
                  rR == [cap |-> d[2], lat |-> d[3], ty |-> "r", h |-> hR]
-             IN Each(PerformThen(d[1], xs[i], fR, rR), H \o pair, i + 1)
+             IN Each(PerformThen(d[1], w[2], fR, rR), H \o pair, i + 1)
       S1 == [a[1] EXCEPT !.grp = Append(@, G)]
       r == Each(S1, hs, 1)
       \* an empty input settles at once (all / allSettled: [], any: AggregateError; race: stays pending)
@@ -199,7 +205,7 @@ RunThenable(j, rest) ==
       t == j.t
   IN IF IsPRef(t)
      THEN \* Promise.prototype.then on the native promise: derived promise + reactions calling the resolving functions
-          LET d == Alloc(S1)
+          LET d == AllocC(S1, S1.ps[PRef(t)].cls)
               nh == Len(hs)
               fR == [cap |-> d[2], lat |-> d[3], ty |-> "f", h |-> nh + 1]
               rR == [cap |-> d[2], lat |-> d[3], ty |-> "r", h |-> nh + 2]
@@ -225,16 +231,19 @@ RunReaction(j, rest) ==
           \* (onFinally is ONE script function: it logs the id of the finF slot on both paths)
           LET u == UserBeh(S1, IF hs[rc.h].kind = "finR" THEN rc.h - 1 ELSE rc.h, hs[rc.h].beh, "")
           IN IF u[2] = "thr" THEN Commit(RejectFn(u[1], rc.cap, rc.lat, u[3])) /\ UNCHANGED <<hs, plat>>
-             ELSE LET a == Alloc(u[1])                      \* PromiseResolve: a new promise resolved with the result
-                      S2 == ResolveFn(a[1], a[2], a[3], u[3])
-                      d == Alloc(S2)                         \* promise.then(thunk): derived promise
+             ELSE LET C == hs[rc.h].c
+                      same == IsPRef(u[3]) /\ u[1].ps[PRef(u[3])].cls = C
+                      \* PromiseResolve(C, result): the result itself if it is a promise constructed by C, else a new C promise resolved with it
+                      a == IF same THEN <<u[1], PRef(u[3]), 0>> ELSE AllocC(u[1], C)
+                      S2 == IF same THEN u[1] ELSE ResolveFn(a[1], a[2], a[3], u[3])
+                      d == AllocC(S2, C)                     \* promise.then(thunk): derived promise
                       nh == Len(hs)
                       th == IF hs[rc.h].kind = "finF" THEN [kind |-> "thunkV", v |-> j.arg] ELSE [kind |-> "thunkT", v |-> j.arg]
                       fR == [cap |-> d[2], lat |-> d[3], ty |-> "f", h |-> nh + 1]
                       rR == [cap |-> d[2], lat |-> d[3], ty |-> "r", h |-> 0]
                       S3 == PerformThen(d[1], a[2], fR, rR)
                   IN /\ Commit(ResolveFn(S3, rc.cap, rc.lat, "P" \o ToString(d[2])))       \* the closure returns that promise
-                     /\ hs' = Append(hs, th) /\ plat' = plat \o <<0, 0>>
+                     /\ hs' = Append(hs, th) /\ plat' = plat \o (IF same THEN <<0>> ELSE <<0, 0>>)
      ELSE LET c == Call(S1, rc.h, j.arg)
           IN /\ UNCHANGED <<hs, plat>>
              /\ Commit(IF c[2] = "thr" THEN RejectFn(c[1], rc.cap, rc.lat, c[3]) ELSE ResolveFn(c[1], rc.cap, rc.lat, c[3]))
@@ -248,10 +257,10 @@ RunJob == /\ phase = "drain" /\ jobq # <<>>
 OpsOf == IF Mode = "oracle" THEN Progs[pi].ops ELSE <<>>
 Want(o) == Mode = "explore" \/ (nops < Len(OpsOf) /\ OpsOf[nops + 1] = o)
 Behs == {"none", "val", "thr", "P1", "Tok", "res1"}
-ExploreOps == {[op |-> "new"]} \cup {[op |-> "resolve", p |-> p, x |-> x] : p \in 1..NP, x \in {"v1", "P1", "P2", "self", "Tok", "Tmulti", "Tget"}}
+ExploreOps == {[op |-> "new", c |-> "P"], [op |-> "new", c |-> "S"]} \cup {[op |-> "resolve", p |-> p, x |-> x] : p \in 1..NP, x \in {"v1", "P1", "P2", "self", "Tok", "Tmulti", "Tget"}}
               \cup {[op |-> "reject", p |-> p, x |-> "e0"] : p \in 1..NP}
               \cup {[op |-> "then", p |-> p, bf |-> bf, br |-> br] : p \in 1..NP, bf \in Behs, br \in {"none", "val", "thr"}}
-              \cup {[op |-> "finally", p |-> p, b |-> b] : p \in 1..NP, b \in {"val", "thr"}}
+              \cup {[op |-> "finally", p |-> p, b |-> b] : p \in 1..NP, b \in {"val", "thr", "P1"}}
               \cup {[op |-> k, xs |-> xs] : k \in {"all", "any", "race", "allSettled"}, xs \in {<<1, 2>>, <<2, 1>>, <<1>>}}
 Candidates == IF Mode = "oracle" THEN (IF nops < Len(OpsOf) THEN {OpsOf[nops + 1]} ELSE {}) ELSE ExploreOps
 
@@ -259,7 +268,7 @@ Valid(o) == CASE o.op = "new" -> Len(ps) < NP
               [] o.op \in {"resolve", "reject"} -> o.p <= Len(ps) /\ plat[o.p] # 0 /\ (IsPRef(o.x) => PRef(o.x) <= Len(ps))
               [] o.op = "then" -> o.p <= Len(ps) /\ Len(ps) < NP /\ (IsPRef(o.bf) => PRef(o.bf) <= Len(ps))
                                   /\ (IsRes(o.bf) => ResOf(o.bf) <= Len(ps) /\ plat[ResOf(o.bf)] # 0)
-              [] o.op = "finally" -> o.p <= Len(ps) /\ Len(ps) < NP
+              [] o.op = "finally" -> o.p <= Len(ps) /\ Len(ps) < NP /\ (IsPRef(o.b) => PRef(o.b) <= Len(ps))
               [] o.op \in {"all", "any", "race", "allSettled"} -> (\A i \in 1..Len(o.xs) : o.xs[i] <= Len(ps)) /\ Len(ps) + Len(o.xs) < NP
               [] OTHER -> TRUE
 
@@ -268,7 +277,7 @@ ScriptOp ==
   /\ \E o \in Candidates :
        /\ Valid(o) /\ o.op \notin {"run", "end"}
        /\ (phase = "idle" => o.op \in {"resolve", "reject"})         \* between runs only Go-side resolver calls
-       /\ CASE o.op = "new" -> OpNew
+       /\ CASE o.op = "new" -> OpNew(o.c)
             [] o.op = "resolve" -> OpResolve(o.p, o.x)
             [] o.op = "reject" -> OpReject(o.p, o.x)
             [] o.op = "then" -> OpThen(o.p, o.bf, o.br)
